@@ -9,7 +9,7 @@ from trie import HexaryTrie
 from trie.exceptions import BadTrieProof
 
 from ..core import HarnessError, Violation, deep, fresh, hx, unhx
-from ..hgen import HistoryGen, make_pool, make_values, probe_keys
+from ..hgen import HistoryGen, make_pool, make_values, probe_keys, rare_huge
 from ..hworld import HWorld
 from ..models.mpt import BLANK_ROOT, RefMPT, nibbles_of, rlp_any
 
@@ -357,7 +357,7 @@ def gen_fault(rng, pool, probes):
 
 
 def generate(rng):
-    pool = make_pool(rng, size=rng.choice([3, 4, 5, 6, 8, 10, 12, 16, 24]), style=("deepcomb" if rng.random() < 0.08 else "comb") if rng.random() < 0.05 else None)
+    pool = make_pool(rng, size=rng.choice([3, 4, 5, 6, 8, 10, 12, 16, 24]), style=("deepcomb" if rng.random() < 0.08 else "comb") if rng.random() < 0.05 else rare_huge(rng))
     values = make_values(rng)
     probes = probe_keys(rng, pool, extra=3)
     g = HistoryGen(rng, pool, values, probes, batches=True, aborts=False, reopen=True, lookups=(0, 0))
